@@ -947,13 +947,22 @@ class CallsMixin:
             self.fstack.pop()
         conc = {p: v.d for p, v in bound.items() if isinstance(v.shape, ConcS)}
         c = self.reg.lookup(key, conc, {p: self.as_sym(v) for p, v in bound.items()},
-                            mode=getattr(self.unit, "mode", None) if self.unit is not None else None)
+                            mode=self.callee_mode(key))
         if c is not None and not c.inline and not force_inline:
             return self.apply_contract(c, bound, st)
         if c is None and not force_inline and key not in self.reg.inline_ok:
             raise OutOfSubset(f"no contract for callee {key} (conc args {sorted(conc)})")
         clo = Closure(info.node, None, info.qualname, info.module)
         return self.inline_expr_closure(clo, bound, st, allow_stmts=True)
+
+    def callee_mode(self, key):
+        u = self.unit
+        if u is None:
+            return None
+        cm = getattr(u, "callee_modes", None) or {}
+        if key in cm:
+            return cm[key]
+        return getattr(u, "mode", None)
 
     def call_live_lambda(self, fn, args, kwargs, st):
         mod = fn.__module__
@@ -1053,6 +1062,10 @@ class CallsMixin:
             goal = self.truth(self.spec_eval(text, env, st, mod, c), st)
             self.ctx.oblige(f"L{self.cur_line}/call:{c.name}/{name}", st, goal, kind="call-pre")
         from .contract import MapOf
+        if callable(c.result) and not isinstance(c.result, (V.Shape, MapOf)):
+            import copy
+            c = copy.copy(c)
+            c.result = c.result({p: v for p, v in env.items() if isinstance(v, Val)})
         if isinstance(c.result, MapOf):
             items = {}
             for k, sh in c.result.items():
@@ -1064,7 +1077,7 @@ class CallsMixin:
             if c.result is not None:
                 st.assume(Q.deep_wf(self, res))
         env["result"] = res
-        if c.pure and c.result is not None and not isinstance(c.result, MapOf) and not c.ghost_results:
+        if c.pure and c.result is not None and not isinstance(c.result, MapOf):
             # the function is deterministic and reads only its arguments (fxvc obligation), so
             # its result is a function of them: equal calls give equal results
             st.pc.append(self.py_eq(res, self.pure_result(c, [env[p] for p in c.params if not hasattr(c.params[p], "get")])))
